@@ -323,6 +323,15 @@ Section Alg.
     let ind_ref := fun j => existsb (fun u => let '(_, _, _, i) := row u in i =? Z.of_nat j) order in
     let pmap := if o_fp o then refmap (t_npops t) 0 pop_ref 0 else idmap (t_npops t) in
     let imap := if o_fi o then refmap (length (t_inds t)) 0 ind_ref 0 else idmap (length (t_inds t)) in
+    (* simplifier_finalise_individual_references 10047-10116 is TWO passes: pass 1 copies
+       every referenced individual with its ORIGINAL parents and fills individual_id_map
+       (here [imap], complete only after the loop); pass 2 ("Remap parent IDs", over the whole
+       output parents column) maps the parents through the finished map.  Remapping inline in
+       pass 1 would give -1 for a retained parent that sits later in the table -- simplify
+       accepts individuals in any row order. *)
+    let inds_copied := flat_map (fun j => if nth j imap (-1) =? -1 then [] else [(j, nth j (t_inds t) [])])
+                                (seq 0 (length (t_inds t))) in
+    let inds_remapped := map (fun jp : nat * list Z => (fst jp, map (zmap imap) (snd jp))) inds_copied in
     let out_nodes := map (fun u =>
         let '(fl, _, p, i) := row u in
         let fl' := if o_usf o then 2 * (fl / 2) + (if is_sample u then 1 else 0) else fl in
@@ -330,8 +339,6 @@ Section Alg.
     mkResult (s_map s2) out_nodes (s_edges s2)
              (filter (fun sid => negb (nth sid smap (-1) =? -1)) (seq 0 nsites))
              out_muts
-             (flat_map (fun j => if nth j imap (-1) =? -1 then []
-                                 else [(j, map (zmap imap) (nth j (t_inds t) []))])
-                       (seq 0 (length (t_inds t))))
+             inds_remapped
              (filter (fun j => negb (nth j pmap (-1) =? -1)) (seq 0 (t_npops t))).
 End Alg.
